@@ -396,3 +396,32 @@ Theorem C07_plugin_stack_pipeline_partitions :
                = Some (Buffer.byte_slice (enc t0) (Buffer.map_range (Buffer.m2o s) (PipelineFull.sbytes n)))).
 Proof. exact (plugin_stack_pipeline_partitions C07_fact_slow_search_longest C07_fact_lowercase_guard C07_fact_path_guard). Qed.
 Print Assumptions C07_plugin_stack_pipeline_partitions.
+
+(* ==================================================================================================================
+   Stacks with several instances of one plugin class.  C07_plugin_stack_reaches above speaks about ANY list of plugin
+   instances; what the list is, is a fact about the loader: every configured entry is instantiated, in order (no
+   de-duplication by class name), and the tokenizer applies the instances in that order. *)
+From SudachiVerif Require Generated.PluginLoaderFacts.
+
+Fact C07_fact_every_configured_instance_is_applied :
+  (Generated.PluginLoaderFacts.load_loop_body, Generated.PluginLoaderFacts.load_plugin_effects,
+   Generated.PluginLoaderFacts.load_plugin_push_is_last, Generated.PluginLoaderFacts.plugins_accessor,
+   Generated.PluginLoaderFacts.freeze_keeps_plugins, Generated.PluginLoaderFacts.input_text_configurations,
+   Generated.PluginLoaderFacts.dictionary_input_text_plugins, Generated.PluginLoaderFacts.rewrite_input_iterates,
+   Generated.PluginLoaderFacts.rewrite_input_step)
+  = ("letname=extract_plugin_class(cfg)?;self.load_plugin(name,cfg)?;", ["push"], true, "&self.plugins", true,
+     "&cfg.input_text_plugins", "self.plugins.input_text.plugins()", "self.dictionary.input_text_plugins()",
+     "p.rewrite(&mutself.input)?;")%string.
+Proof. vm_compute. reflexivity. Qed.
+
+(* the specified text after a configured list = the fold (composition in configured order) of the per-instance
+   specifications; two instances of one class are two elements of the list *)
+Theorem C07_plugin_stack_spec_is_fold :
+  forall (ps : list plugin) (t : text), stack_spec ps t = fold_left (fun cur p => plugin_spec p cur) ps t.
+Proof. exact stack_spec_is_fold. Qed.
+Print Assumptions C07_plugin_stack_spec_is_fold.
+
+Theorem C07_plugin_stack_spec_composes :
+  forall (ps qs : list plugin) (t : text), stack_spec (ps ++ qs) t = stack_spec qs (stack_spec ps t).
+Proof. exact stack_spec_app. Qed.
+Print Assumptions C07_plugin_stack_spec_composes.
